@@ -7,7 +7,8 @@ import core, c01, c09
 def run(tier):
     res = Result("C10", tier, "model_checking")
     res.assumptions = ["documents of the generators contain no strings that look like regex or range literals (reported literals are printed that way)",
-                       "remaining_query strings are not compared (only the point reached and the reported value)"]
+                       "remaining_query strings are not compared (only the point reached and the reported value)",
+                       "positions are observed through the Path=<p>[L:l,C:c] strings of the structured report; SARIF regions are not asserted"]
     env = {}
     if tier == "quick":
         env = {"SLICES": "6", "SLICE": str(1 + seed() % 6)}
@@ -18,10 +19,23 @@ def run(tier):
     res.add("states", r["distinct"])
     res.add("transitions", r["states"])
     c09.report_trace(res, tier, 1200 if tier == "quick" else 15000, ["core", "full"], ["full", "resolve"], seed_mul=67867967)
+    # source positions: documents written by the specification's serialiser (which records where
+    # every scalar starts) are loaded by validate; every reported [L,C] must be that position
+    import c11, cli
+    cases = c11.load_cases(res, tier, None, "10")
+    wd = cli.Workdir("c10")
+    tr = os.path.join(WORK, "trace_C10_load.ndjson")
+    n = c11.record(tr, cases, wd, {"doc"})
+    wd.close()
+    c11.judge(res, tr, n, {"positions", "text", "validate-value"}, lambda name, line: "positions:%s:%s" % (name, line["fmt"]))
+    res.add("evaluations", n)
+    os.remove(tr)
     res.cov["rule"] = ("PathOK over the single-clause space (every query result sits at its path; unresolved results name an "
                        "existing point whose next segment is missing); R: for random programs the kind, path and value of the "
                        "`from`/`to` of every value check the implementation records equal those the specification derives, "
-                       "and every data path of the specification's record resolves in the document to the reported value")
+                       "and every data path of the specification's record resolves in the document to the reported value; documents written by "
+                       "GuardLoad.Ser in JSON / pretty JSON / flow YAML / block YAML under layout vectors (indent, quoting, comments, blank lines): "
+                       "every [L,C] the validate command reports for a scalar equals the position the serialiser recorded")
     return res.finish()
 
 
